@@ -1278,3 +1278,79 @@ func ruleBreakpointRedirect(c *Ctx, rule string) {
 		c.Ob(rule, "fast.Comp.breakpoint/redirect", fd, false, "no redirection to Run.Interrupt found: anchor missing")
 	}
 }
+
+// ruleIndexAdmission (I2): Go accepts an index of any integer type, for reading and for assigning. The compilers
+// of an indexed operand (those that report "non-integer ... index") admit the index by its category -- a test
+// that names Int and Uint -- and never by assignability to int, which rejects uint8, int64 ... for `a[i] = v`
+// while `a[i]` is accepted.
+func ruleIndexAdmission(c *Ctx, rule string) {
+	pk := c.P.Pkg("fast")
+	if pk == nil {
+		c.Fatal("package fast not loaded")
+		return
+	}
+	info := pk.TypesInfo
+	n := 0
+	for _, fd := range c.P.FuncsOf("fast") {
+		if fd.Body == nil || baseName(pk.Fset, fd) != "index.go" {
+			continue
+		}
+		// the statement that reports a non-integer index
+		ast.Inspect(fd.Body, func(nd ast.Node) bool {
+			ifs, ok := nd.(*ast.IfStmt)
+			if !ok {
+				return true
+			}
+			reports := func(b *ast.BlockStmt) bool {
+				r := false
+				inspectCalls(b, func(call *ast.CallExpr) {
+					if fn := calleeOf(info, call); fn != nil && fn.Name() == "Errorf" && len(call.Args) > 0 {
+						if s, ok := constString(info, call.Args[0]); ok && strings.Contains(s, "non-integer") && strings.Contains(s, "index") {
+							r = true
+						}
+					}
+				})
+				return r
+			}
+			var cond ast.Expr
+			if reports(ifs.Body) {
+				cond = ifs.Cond
+			} else if blk, ok := ifs.Else.(*ast.BlockStmt); ok && reports(blk) {
+				cond = ifs.Cond
+			}
+			if cond == nil {
+				return true
+			}
+			n++
+			byCategory, byAssignability := false, false
+			ast.Inspect(cond, func(m ast.Node) bool {
+				switch x := m.(type) {
+				case *ast.CallExpr:
+					if fn := calleeOf(info, x); fn != nil {
+						switch fn.Name() {
+						case "AssignableTo":
+							byAssignability = true
+						case "IsCategory", "Category":
+							byCategory = true
+						}
+					}
+				case *ast.Ident:
+					// cat := reflect.Category(k) tested as cat == r.Int || cat == r.Uint
+					if d := buildDefIndex(info, fd).single(info.Uses[x]); d != nil {
+						if call, ok := unparen(d).(*ast.CallExpr); ok {
+							if fn := calleeOf(info, call); fn != nil && fn.Name() == "Category" {
+								byCategory = true
+							}
+						}
+					}
+				}
+				return true
+			})
+			c.Ob(rule, funcKey(pk, fd)+"/admission", ifs, byCategory && !byAssignability, fmt.Sprintf("the index is admitted by its integer category (%v), not by assignability to int (%v)", byCategory, byAssignability))
+			return true
+		})
+	}
+	if n < 3 {
+		c.Ob(rule, "fast/index-admissions", nil, false, fmt.Sprintf("%d index admissions found, at least 3 expected (vectorIndex, vectorPlace, vectorPtrPlace)", n))
+	}
+}
